@@ -102,7 +102,7 @@ def r1_generator_pairing(ctx: Ctx) -> None:
                     if isinstance(r, ast.Return) and s is not seq[-1]:
                         ctx.fail(construct + ":early-return", "a return between append and restore leaves the generation-time scope pushed")
     ctx.count("scope_creators", len(creators))
-    ctx.floor("scope_creators", 4)
+    ctx.floor("scope_creators", 2)
     allowed = {f.fq for f in creators}
     for fn in ctx.repo.all_functions():
         for c in calls_in(fn.node):
@@ -310,7 +310,7 @@ def r5_who_may_write(ctx: Ctx) -> None:
             before_try = bool(tries) and all(getattr(n, "lineno", 0) < tries[0].lineno or any(x is n for f in tries[0].finalbody for x in ast.walk(f)) for _ in [0])
             ctx.check(t.attr == "current_scope" and restored and before_try, f"{fn.where}:{unparse(n)[:50]}",
                       "the replay cursor is written outside the resolver; allowed only as save / switch / restore-in-finally of current_scope")
-    ctx.floor("cursor_writes", 8)
+    ctx.floor("cursor_writes", 5)
 
 
 
